@@ -346,6 +346,31 @@ theorem par_shares_pinned (p0 : Nat) (len : Nat → Nat) :
     simp only [List.pairwise_cons, List.mem_cons, List.mem_nil_iff, or_false, forall_eq] at hpw
     exact not_disjoint_of_same_start (a := ⟨.parent, p0, len 0⟩) (b := ⟨.parent, p0, len 1⟩) rfl rfl h0 h1 hpw.1
 
+/-- **the fork server with numpy preloaded** (the seeded-change family "attach the seeds only under `fork`"): code that
+leaves the shots unseeded hands every worker the server's one generator state, so on the pinned schedule both shots draw
+from the server's stream at the same position 0 — the same noise, exactly as under `fork`.  The seeds must therefore not
+depend on the start method; the repaired code attaches them always (`par_disjoint` holds for every start method). -/
+theorem par_shares_forkserver (p0 : Nat) (len : Nat → Nat) :
+    let s : Schedule := ⟨[0, 1], [0, 1]⟩
+    s.Valid (nBatches (chunksize 2 2) 2) 2 ∧
+    parRun (found .forkserver p0 len) 1 2 s
+      = [⟨0, 0, ⟨.server, 0, len 0⟩⟩, ⟨1, 1, ⟨.server, 0, len 1⟩⟩] ∧
+    (0 < len 0 → 0 < len 1 →
+      ¬ (parRun (found .forkserver p0 len) 1 2 s).Pairwise (fun a b => a.src.Disjoint b.src)) := by
+  intro s
+  have hn : nProcesses 1 = 2 := by decide
+  have hc : chunksize 2 2 = 1 := by decide
+  have hv := (par_shares_pinned p0 len).2.2.1
+  have hrun : parRun (found .forkserver p0 len) 1 2 s
+      = [⟨0, 0, ⟨.server, 0, len 0⟩⟩, ⟨1, 1, ⟨.server, 0, len 1⟩⟩] := by
+    simp [parRun, parRunN, parRunWith, found, hn, hc, mkArgs, List.range_succ, chunks_of_ne_nil, chunks_of_nil,
+      consume, runShots, singleShot, workerInit, s]
+  refine ⟨hv, hrun, ?_⟩
+  intro h0 h1 hpw
+  rw [hrun] at hpw
+  simp only [List.pairwise_cons, List.mem_cons, List.mem_nil_iff, or_false, forall_eq] at hpw
+  exact not_disjoint_of_same_start (a := ⟨.server, 0, len 0⟩) (b := ⟨.server, 0, len 1⟩) rfl rfl h0 h1 hpw.1
+
 /-- **the observed instance of D12**: 24 shots on a machine with 15 cores (12 workers, chunk size 2),
 every worker taking one batch: the 24 shots draw from only TWO distinct sources — each of the 12
 workers replays `[p0, p0+L)` and then `[p0+L, p0+2L)` of the parent's stream. -/
